@@ -67,6 +67,7 @@ static void evalRaw(const Cfg& c, const uint8_t* raw, int n, FmSet fmset) {
     if (c.fs.div > 1) sig += ",div";
     else if (c.fs.div < 0) sig += ",mul";
     if (c.listId) sig += ",list";
+    if (c.rangeId) sig += ",range";
     if (fmt != F_TEXT) sig += string(",") + FMTNAMES[fmt];
     R.violation(sig, detail, c.key() + ";f=" + FMTNAMES[fmt] + ";raw=" + hexOf(raw, n));
     break;  // the other formats of the same pattern share the root cause
@@ -171,6 +172,7 @@ int main(int argc, char** argv) {
   if (want("num")) E.numericTypes();
   if (want("bits")) E.bitTypes();
   if (want("list")) E.listTypes();
+  if (want("range")) E.rangeTypes();
   if (want("date")) E.dateTypes();
   if (want("time")) E.timeTypes();
   if (want("str")) E.stringTypes();
